@@ -13,6 +13,8 @@
    iterators of one reader interleaved, buffers checked after the following call). *)
 From Coq Require Import NArith List Lia.
 From Mtbl Require Import model.Bytes model.Order spec.Parse model.Reader proofs.BlockProofs proofs.ReaderProofs.
+(* source ties: the statements of the C functions the model follows (gen/Ties.v is regenerated from /repo on every run) *)
+From Mtbl Require props.Ties_C03.
 Local Open Scope N_scope.
 
 (* T03a: block_iter_seek.  For every well-formed non-empty block b (offsets and keys
